@@ -408,6 +408,10 @@ func (o *oracle) after(s *sim, sp *runSpec, pre *preState, outcome string) (stri
 			switch {
 			case sp.fTombRd:
 				cause = "tombstone-unreadable"
+			case pre.tomb == "zero":
+				cause = "zero-length-tombstones"
+			case pre.tomb == "corrupt":
+				cause = "corrupt-tombstones"
 			case sp.fStateRd:
 				cause = "state-unreadable"
 			case o.stateBad:
